@@ -159,7 +159,7 @@ pub fn ref_decode(buf: &[u8], kt: KeyType) -> Verdict {
             }
             prev = Some(k.payload);
         }
-        if ch.len() == 2 {
+        if ch.len() == 2 && !k.hdr.list {
             pairs.push((k.payload.to_vec(), ch[1].raw.to_vec()));
         }
     }
@@ -170,9 +170,6 @@ pub fn ref_decode(buf: &[u8], kt: KeyType) -> Verdict {
         rules.push(R9KeysNotIncreasing);
     }
     let get = |name: &[u8]| -> Option<&Vec<u8>> {
-        if key_not_string {
-            return None;
-        }
         // first occurrence; duplicates are already a violation
         pairs.iter().find(|(k, _)| k.as_slice() == name).map(|(_, v)| v)
     };
